@@ -556,6 +556,18 @@ fn boxed_programs() -> Vec<(&'static str, String)> {
     for (name, decl, body) in shapes {
         v.push((name, format!("{decl}\nfn dsp() -> float {{\n {body}\n 1.0\n}}\n")));
     }
+    // aggregates released at let-scope end whose counted members sit at different positions (the type-directed release
+    // has to address the member it releases): records sort their fields by name
+    let l = "type rec List = Nil | Cons(float, List)\n";
+    for (name, body) in [
+        ("record, counted field first", "fn dsp(){ let ev = {partials = Cons(440.0, Nil), vol = 0.5}; ev.vol }"),
+        ("record, plain field before counted field", "fn dsp(){ let ev = {gain = 0.5, partials = Cons(440.0, Nil)}; ev.gain }"),
+        ("record, plain field between counted fields", "fn dsp(){ let ev = {attack = Cons(1.0, Nil), level = 0.25, release = Cons(2.0, Nil)}; ev.level }"),
+        ("record nested in a tuple", "fn voice(f:float){ let v = (f, {amp = 0.5, partials = Cons(f, Nil)}); v.0 }\nfn dsp(){ voice(440.0) }"),
+        ("tuple, plain members before and between counted members", "fn dsp(){ let ev = (0.5, Cons(440.0, Nil), 2.0, Cons(1.0, Nil)); ev.0 }"),
+    ] {
+        v.push((name, format!("{l}{body}\n")));
+    }
     v
 }
 fn heap_after(src: &str, n: usize) -> Result<(usize, usize), String> {
